@@ -19,7 +19,9 @@ CLAIMS = {
              "(is_one(one()), is_zero(zero()), normalize(a, one()) = a for an abstract user semiring) and the "
              "log/probability homomorphism are loop-free harnesses over full-domain symbolic inputs, so each "
              "discharged VC is a proof for all values (floats as extended reals). ad_complement's fold is proved "
-             "with a loop invariant. The symbolic (string) semiring is only a bounded stand-in.",
+             "with a loop invariant. The symbolic (string) semiring is only a bounded stand-in (base alphabet, and its closure "
+             "under the semiring's own operations); a third stand-in compares the probability and log-probability objects "
+             "method by method on a grid (whatever class implements the method).",
         design_ref="DESIGN.md section 2, C12",
         technique="contract-based deductive verification: own VC generator (ast -> symbolic execution -> z3/cvc5), "
                   "counter-models replayed natively",
@@ -36,7 +38,8 @@ CLAIMS["C34"] = dict(
          "verified function by function against whole-view contracts: heap order + index table with the abstract "
          "map item->key and the inductive lemma root-is-min; set-of-naturals view of the bit blocks; ghost ring "
          "order of the doubly linked cells. Recursion and loops are unbounded (own contract / invariants). "
-         "BitVector.__iter__/__len__/__bool__ and the MutableSet mix-ins are not under contract yet.",
+         "BitVector.__len__ (population count, loop invariant) and __bool__ are under contract too; BitVector.__iter__ and the "
+         "MutableSet mix-ins are not.",
     design_ref="DESIGN.md section 2, C34",
     technique=TECH,
 )
@@ -47,7 +50,7 @@ CLAIMS["C15"] = dict(
          "standard order std_cmp written from the property text (Var < Number < String < Atom < Compound; exact "
          "numeric values, float before equal int; names without quotes; arity, name, arguments) for all terms of an "
          "algebraic Term datatype, including the recursion over arguments (loop invariant over lexcmp); the four "
-         "@-comparison wrappers are proved against it. compare/3 and sort/2 themselves (mode check, list building, "
+         "@-comparison wrappers and ==/2, \\==/2 (identity = equal in the standard order) are proved against it. compare/3 and sort/2 themselves (mode check, list building, "
          "sorted()/dedupe) are bounded stand-ins: their contracts are evaluated at run time on generated terms.",
     design_ref="DESIGN.md section 2, C15",
     technique=TECH,
@@ -177,14 +180,17 @@ EXPLORE.update({
            "test programs, snippet concatenations and random strings, iterating PrologString(text) returns or raises a "
            "ProbLogError subclass within 10 s, never another exception; (b) for seeded terms and clauses built with the public "
            "constructors over the full operator table (nested operators, \\+/not, lists, strings, quoted atoms, probabilities, "
-           "annotated disjunctions), PrologString(str(t) + '.') yields exactly one clause == t. Three defects found this way "
-           "were repaired (fix: commits).",
+           "annotated disjunctions), PrologString(str(t) + '.') yields exactly one clause == t; (c) for seeded clause texts with "
+           "explicit parentheses around every operator application (the only way to reach the infix printer), parse -> print "
+           "-> parse and Term.from_string give back the parsed clause, probabilities included. Defects found this way "
+           "were repaired (fix: commits). Deductive part: 38 tokenizer functions under contract (progress, token text, "
+           "functor flag).",
 })
 EXPLORE.update({
     "C27": "Run-time contract on get_evaluatable().create_from(PrologString(text)).evaluate(): it returns or raises a "
            "ProbLogError subclass within 20 s, never another exception, for (a) every registered builtin (I/O, consult, module "
            "and state builtins excluded) called with seeded argument shapes in three program contexts, (b) family programs plus "
-           "one of 30 kinds of user error, (c) token-level mutations of family programs. Twelve defects found this way were "
+           "one of 40 kinds of user error, (c) token-level mutations of family programs. Twenty-one defects found this way were "
            "repaired (fix: commits).",
 })
 EXPLORE.update({
